@@ -130,6 +130,9 @@ def run_method(parser_module, name, args, flags, text):
     from py_gql.exc import GraphQLSyntaxError
     from py_gql.lang.token import EOF, SOF
     try:
+        if name.endswith("@module"):
+            getattr(parser_module, name[:-7])(text, **flags)
+            return ("accept", None)
         p = parser_module.Parser(text, **flags)
         if name != "parse_document":
             p.expect(SOF)
